@@ -51,7 +51,7 @@ def concurrent(ctx, sd):
     tdir = os.path.join(ctx.scratch, "traces")
     os.makedirs(tdir, exist_ok=True)
     maxqw = [100000, 120, 100000][ctx.seed % 3]
-    rounds = ctx.pick(24, 200)
+    rounds = ctx.pick(16, 200)
     recs, out, rc = ctx.go_test(PKG, FILES, "^TestVerifHHConcurrent$", env={"VERIF_TRACE_DIR": tdir, "VERIF_ROUNDS": rounds, "VERIF_MAXQW": maxqw},
                                 timeout=900, label="concurrent")
     done = ctx.process(recs, out, rc, "TestVerifHHConcurrent")
@@ -135,7 +135,7 @@ def run(ctx):
     gl = 14
     gc = {"MaxSegW": 5, "MaxQW": 14, "Words": {1, 2, 5}, "SegSizes": {3, 5}, "MaxBlocks": 8, "BufT": 2, "MaxTok": 2,
           "Apps": ["a1"], "Dev": ['"ackBeforeDurable"'], "MaxSegId": 99, "MaxSent": 99, "GenLen": gl}
-    num = ctx.pick(200, 800)
+    num = ctx.pick(120, 800)
     if ctx.replay:
         rp = json.load(open(ctx.replay))["replay"]
         inp = {"consts": rp.get("consts"), "behaviours": [rp.get("behaviour")]}
@@ -146,7 +146,7 @@ def run(ctx):
         # rollover-heavy behaviours: one block per segment, more than ten segments, close/reopen in between
         gr = dict(gc, MaxSegW=3, MaxQW=200, Words={1, 2}, SegSizes={3}, MaxBlocks=14, GenLen=22)
         ctx.write_cfg(sd, "GenR.cfg", "GSpecQ", gr, extra="INVARIANT Emit")
-        nr = ctx.pick(40, 150)
+        nr = ctx.pick(25, 150)
         behs_r = ctx.tlc_generate(sd, "HHQueueGen", "GenR.cfg", num=nr, depth=23)[:nr]
         inp_r = {"consts": {k: v for k, v in gr.items() if isinstance(v, int)}, "behaviours": behs_r}
     def run_q(inp, label):
@@ -173,7 +173,7 @@ def run(ctx):
             inp_p = {"consts": rp["consts"], "behaviours": [rp["behaviour"]]}
         else:
             ctx.write_cfg(sd, "GenP.cfg", "GSpecP", gp, extra="INVARIANT Emit")
-            nump = ctx.pick(150, 1500)
+            nump = ctx.pick(100, 1500)
             behs_p = ctx.tlc_generate(sd, "HHQueueGen", "GenP.cfg", num=nump, depth=gl + 1)[:nump * 2]
             inp_p = {"consts": {k: v for k, v in gp.items() if isinstance(v, int)}, "behaviours": behs_p}
         def run_p(inp, label):
@@ -186,13 +186,13 @@ def run(ctx):
         done_p = ctx.process(recs, out, rc, "TestVerifHHReplayP", confirm_p)
         ctx.cov["traces_validated_against_impl"] += done_p.get("behaviours", 0)
     if not ctx.replay:
-        recs, out, rc = ctx.go_test(PKG, FILES, "^TestVerifHHProcStress$", env={"VERIF_ROUNDS": ctx.pick(30, 200)}, timeout=900, label="procstress")
+        recs, out, rc = ctx.go_test(PKG, FILES, "^TestVerifHHProcStress$", env={"VERIF_ROUNDS": ctx.pick(20, 200)}, timeout=900, label="procstress")
         ctx.process(recs, out, rc, "TestVerifHHProcStress")
     # 2c. batch bisection in WriteShard (HHSplit): exhaustive on the model, sampled cases on the real code
     split(ctx, sd)
     # 2d. service level (HHService): lookup/append against the purge of idle processors
     if not ctx.replay:
-        sc = {"Procs": {11, 12, 21}, "Nodes": {1, 2}, "Writers": ["w1", "w2"], "MaxBlocks": 3, "WriteUnderLock": True}
+        sc = {"Procs": ctx.pick({11, 21}, {11, 12, 21}), "Nodes": {1, 2}, "Writers": ["w1", "w2"], "MaxBlocks": 3, "WriteUnderLock": True}
         ctx.write_cfg(sd, "SvcMC.cfg", "Spec", sc, ["C04_ServiceNoLoss"])
         ctx.tlc_check(sd, "HHService", "SvcMC.cfg", workers=8, timeout=900)
         # negative control: the lock discipline found in the repository (append after the lock is released) loses a block
@@ -200,7 +200,7 @@ def run(ctx):
         neg = ctx.tlc_check(sd, "HHService", "SvcNeg.cfg", workers=4, timeout=300, expect_ok=False)
         if neg["ok"]:
             raise Infra("negative control: HHService without write-under-lock does not violate C04_ServiceNoLoss")
-        recs, out, rc = ctx.go_test(PKG, FILES, "^TestVerifHHServiceStress$", env={"VERIF_ROUNDS": ctx.pick(12, 120)}, timeout=1800, label="servicestress")
+        recs, out, rc = ctx.go_test(PKG, FILES, "^TestVerifHHServiceStress$", env={"VERIF_ROUNDS": ctx.pick(8, 120)}, timeout=1800, label="servicestress")
         ctx.process(recs, out, rc, "TestVerifHHServiceStress")
     # 3. real concurrent executions (buffered path, racing Close) -> HHQueueTrace
     tr = concurrent(ctx, sd)
